@@ -37,7 +37,7 @@ def vf_jobs(tier):
         functions=['ov_pcm_seek','_make_decode_ready'],bounds='2 links, <=%d queued packets without granule positions, <=3 further packets fetched, block sizes 64..8192 per link'%(3 if q else 5),weight=3))
     for m in (0,1):
         J.append(Job('bisect-step-m%d'%m,'vf/bisect_step.c',defs=['-DM=%d'%m],cuts={'vorbisfile.c':['_bisect_forward_serialno','_seek_helper','_get_next_page','_get_prev_page_serial','_fetch_headers','_initial_pcmoffset']},
-            unwind=10,object_bits=12,checks=['leak'],witnesses=['link recorded','more links follow','deeper activation failed','header fetch failed','i/o failed during bisection'],models=ENV+['abstract file: current link + start of the next (M-frame(c)); contract of the recursive activation'],
+            unwind=10,object_bits=12,checks=['leak'],witnesses=['link recorded','more links follow','deeper activation failed','header fetch failed','i/o failed during bisection','next link has no audio pages'],models=ENV+['abstract file: current link + start of the next (M-frame(c)); contract of the recursive activation'],
             tags=['C09','C10','C13','C03'],functions=['_bisect_forward_serialno','_lookup_serialno','_lookup_page_serialno'],bounds='one activation at link index %d, links of 200..40000 bytes (linear branch of the bisection), <=8 page fetches; any number of further links (contract)'%m,weight=2))
     for kl in ([2] if q else [2]):   # 3 links: no verdict in 3600 s / 14 GB (measured)
         J.append(Job('chain-table-%d'%kl,'vf/chain_table.c',defs=['-DKL=%d'%kl,'-DFETCHES=%d'%(10 if q else 12)],cuts={'vorbisfile.c':['_seek_helper','_get_next_page','_get_prev_page_serial','_fetch_headers','_initial_pcmoffset','ov_raw_seek']},
@@ -54,6 +54,9 @@ def vf_jobs(tier):
         J.append(Job('F-info-%s'%('int' if w==0 else 'time'),'vf/f_info.c',defs=['-DWHICH=%d'%w,'-DNL=3'],unwind=6,object_bits=12,witnesses=['query refused']+(['chain totals'] if w==0 else ['time tell with an unknown position']),models=ENV,tags=['C03','C09','C12'],
             functions=(['ov_streams','ov_seekable','ov_serialnumber','ov_raw_total','ov_pcm_total','ov_info','ov_comment','ov_pcm_tell','ov_raw_tell','ov_bitrate'] if w==0 else ['ov_time_total','ov_time_tell']),
             bounds='<=3 links with exact-size tables, link argument -2..4, recorded position -1..2^34, any ready state',weight=2))
+    J.append(Job('chain-table-2-hdrfail','vf/chain_table.c',defs=['-DKL=2','-DFETCHES=10','-DHDRFAIL'],cuts={'vorbisfile.c':['_seek_helper','_get_next_page','_get_prev_page_serial','_fetch_headers','_initial_pcmoffset','ov_raw_seek']},
+        unwind=12,object_bits=12,witnesses=['open failed on a later link','chain opened'],models=ENV+['abstract chained file (M-frame(c))','header fetch of a later link may fail with any documented code'],tags=['C12','C09','C03'],
+        functions=['_open_seekable2','_bisect_forward_serialno'],bounds='2 links, header fetch of the second link fails or succeeds',weight=4))
     for nm,d in (('F-prevserial',[]),('F-prevpage',['-DPLAIN'])):
         J.append(Job(nm,'vf/f_prevpage.c',defs=d,cuts={'vorbisfile.c':['_seek_helper','_get_next_page']},unwind=10,unwindset=[('env_fill_page',None,28)],object_bits=12,
             witnesses=['page found','error under persisting end of data']+([] if d else ["preferred stream's page returned although another stream's page follows it"]),models=ENV+['recurrence (lasso) check in the _seek_helper contract'],tags=['C03','C12','C09','C04'],
